@@ -8,6 +8,7 @@ mod imp;
 mod model;
 mod replay;
 mod selftest;
+mod watch;
 
 fn usage() -> ! {
     eprintln!("usage: jpmc check <C01..C15> <quick|thorough> | jpmc replay <file> | jpmc selftest | jpmc p <query>");
@@ -47,6 +48,9 @@ fn main() {
                 .stack_size(64 << 20)
                 .spawn(move || match prop.as_str() {
                     "C01" | "C02" | "C03" => checks::nodelist::run(&prop, &tier),
+                    "C11" => checks::slices::run(&tier),
+                    "C04" => checks::compare::run(&tier),
+                    "C14" => checks::ext::run(&tier),
                     _ => {
                         eprintln!("no check for {}", prop);
                         2
